@@ -17,7 +17,7 @@ func vhDecryptCertRefused(sp *SAMLServiceProvider, cert []byte, listEmpty bool, 
 		return true
 	}
 	if vClockReads("sp") <= k {
-		// no clock reading: only acceptable when the certificate does not parse
+		// no clock reading in this use: only acceptable when the certificate does not parse
 		return vNot(vX509OK(cert))
 	}
 	now := vClockAt("sp", k)
@@ -44,7 +44,7 @@ func VH_C07_decrypt_cert() {
 	vDebugErr("first", err1)
 	vAssert("C09.result-xor-error", (dc1 != nil) != (err1 != nil))
 	r1 := vClockReads("sp")
-	vAssert("C07.sp-clock-consulted-for-a-parsable-encryption-cert", vImplies(mustConsultClock, r1 == 1))
+	vAssert("C07.sp-clock-consulted-for-a-parsable-encryption-cert", vImplies(mustConsultClock, r1 >= 1))
 	vAssert("C07.encryption-cert-refused-iff-empty-unparsable-or-outside-validity", vIff(err1 != nil, vhDecryptCertRefused(sp, cert, listEmpty, 0)))
 	if !sp.ValidateEncryptionCert {
 		vAssert("C07.no-certificate-inspection-when-not-configured", vAnd(r1 == 0, vX509ParseCalls() == 0))
@@ -55,7 +55,7 @@ func VH_C07_decrypt_cert() {
 	dc2, err2 := sp.getDecryptCert()
 	vDebugErr("second", err2)
 	vAssert("C09.result-xor-error", (dc2 != nil) != (err2 != nil))
-	vAssert("C07,C17.sp-clock-consulted-at-every-use", vImplies(mustConsultClock, vClockReads("sp") == r1+1))
+	vAssert("C07,C17.sp-clock-consulted-at-every-use", vImplies(mustConsultClock, vClockReads("sp") >= r1+1))
 	vAssert("C07,C17.encryption-cert-validity-is-checked-at-every-use", vIff(err2 != nil, vhDecryptCertRefused(sp, cert, listEmpty, r1)))
 	vReach("second-refused-after-first-ok", err1 == nil && err2 != nil)
 }
